@@ -33,6 +33,7 @@ RULE = (
     "cache-less engine in a process that never served anything (forked from a zygote, tfv/pristine.py). The argument dictionaries "
     "handed to resolvers are modified in place after every request. Distinct = SHA-1 of (pool, history prefix); non-trivial = the "
     "step re-sends a request whose text was evicted from a small cache since its last use, or re-sends an invalid/broken document."
+    " The query directive takes a list argument too (variables inside its literal) and String results show the coerced directive arguments."
 )
 ASSUMPTIONS = ["quick tier: the oracle is the first answer of one cache-less engine per history, memoised per distinct request; thorough re-cooks a fresh cache-less engine at every step"]
 CACHES = ["default", "lru1", "lru2", "dict", "none"]
@@ -270,7 +271,8 @@ class CacheMachine(RuleBasedStateMachine):
     @initialize(data=st.data())
     def setup(self, data):
         c = HChooser(data)
-        schema, plan = c01.build_schema(c, {"max_inputs": 3})
+        schema, plan = c01.build_schema(c, {"max_inputs": 3, "qd_list_arg": True})
+        plan["echo_directive_args"] = True  # String results show the coerced arguments of the query directives that wrapped them
         if c.maybe(25):
             schema["schema_dirs"] = [{"name": "nonIntrospectable", "args": []}]
         plan["scramble_args"] = True
